@@ -315,7 +315,7 @@ def r18_5(ctx):
     cfg = fi.cfg
     rz = [n for n in cfg.where(lambda n: isinstance(n.ast, ast.Raise))]
     rets = [n for n in cfg.where(lambda n: isinstance(n.ast, ast.Return))]
-    sp = lambda t: t == 'get_spawning_popen() is None'
+    sp = lambda t: t.endswith('get_spawning_popen() is None') and t.replace('billiard.', '').replace('context.', '') == 'get_spawning_popen() is None'
     ok = bool(rz) and all(q.has_guard(fi, n, sp, True) for n in rz) and bool(rets) and \
         all(q.has_guard(fi, n, sp, False) for n in rets)
     ctx.ob('R18.5', 'AuthenticationString.__reduce__:refuses-unless-spawning', ok, fi, rz[0] if rz else None,
